@@ -9,6 +9,9 @@
      decf <ty> <int fuel> <bytes> -> the same as dec with an explicit fuel
      wf   <ty>                    -> 0/1              Model/CodecDom.v wf_ty
      dom  <ty> <val>              -> 0/1              in_dom
+     ddom <ty> <val>              -> 0/1              doc_dom (the documented domain)
+     dwf  <ty>                    -> 0/1              doc_wf (documented-constructible type term)
+     greedy <ty>                  -> <0/1 greedy> <0/1 doc_greedy>
      norm <ty> <val>              -> <val>            norm
    <kind>: 0 bytes/bytearray, 1 str (then a text token), 2 list, 3 tuple (n_bytes returns its argument's slice).
    <code>: Base/Res.v exn_code (1 DataError, 2 BufferEmpty, 10.. foreign). *)
@@ -231,6 +234,12 @@ Definition handle (ts : list tok) : list tok :=
             match r1 with [] => [Proto.TInt (if wf_ty t then 1 else 0)] | _ => bad end
           else if is_sym "dom" cmd then
             match parse_val fuel r1 with Some (v, []) => [Proto.TInt (if in_dom t v then 1 else 0)] | _ => bad end
+          else if is_sym "ddom" cmd then
+            match parse_val fuel r1 with Some (v, []) => [Proto.TInt (if doc_dom t v then 1 else 0)] | _ => bad end
+          else if is_sym "dwf" cmd then
+            match r1 with [] => [Proto.TInt (if doc_wf t then 1 else 0)] | _ => bad end
+          else if is_sym "greedy" cmd then
+            match r1 with [] => [Proto.TInt (if greedy t then 1 else 0); Proto.TInt (if doc_greedy t then 1 else 0)] | _ => bad end
           else if is_sym "norm" cmd then
             match parse_val fuel r1 with Some (v, []) => print_val (norm t v) | _ => bad end
           else bad
